@@ -18,6 +18,10 @@
 //        factor / shift), for the RandomTools samplers and the randC() of the distribution classes;
 //        inverse-cdf picks with the rank of the uniform read under the same seed; randC() domain and
 //        qProb(pProb(x)) round trip
+//   drv_random --out F --mode hmm --n N
+//        hidden-state path sampling: histories of setTransitionProbabilities / parameter updates / getters /
+//        sample(n) on Full and AutoCorrelation transition matrices with 1..4 states (zero entries included);
+//        the uniforms are read by re-seeding, the current weights from a twin object
 //
 // The driver only produces and encodes observations; nothing is judged here.
 #include "tracer.h"
@@ -26,6 +30,8 @@
 #include <Bpp/Numeric/Random/ContingencyTableGenerator.h>
 #include <Bpp/Numeric/Random/RandomTools.h>
 #include <Bpp/Numeric/Stat/ContingencyTableTest.h>
+#include <Bpp/Numeric/Hmm/AutoCorrelationTransitionMatrix.h>
+#include <Bpp/Numeric/Hmm/FullHmmTransitionMatrix.h>
 #include <Bpp/Numeric/Prob/BetaDiscreteDistribution.h>
 #include <Bpp/Numeric/Prob/ExponentialDiscreteDistribution.h>
 #include <Bpp/Numeric/Prob/GammaDiscreteDistribution.h>
@@ -808,6 +814,165 @@ static long laws(Rng& rng, const std::vector<uint64_t>& seeds)
   return sc;
 }
 
+// ---------------------------------------------------------------- hidden-state path sampling
+struct HState : public virtual bpp::Clonable
+{
+  HState* clone() const override { return new HState(*this); }
+};
+class HAlpha : public bpp::HmmStateAlphabet, public bpp::AbstractParametrizable
+{
+  HState st_;
+  size_t n_;
+
+public:
+  explicit HAlpha(size_t n) : bpp::AbstractParametrizable(""), st_(), n_(n) {}
+  HAlpha* clone() const override { return new HAlpha(*this); }
+  const bpp::Clonable& getState(size_t) const override { return st_; }
+  size_t getNumberOfStates() const override { return n_; }
+  bool worksWith(const bpp::HmmStateAlphabet& a) const override { return a.getNumberOfStates() == n_; }
+};
+
+// rank interval of u in the cumulated weights w: number of thresholds <= u -+ 1e-12
+static void rankOf(double u, const std::vector<double>& w, long& lo, long& hi)
+{
+  long double c = 0;
+  lo = hi = 0;
+  for (double x : w)
+  {
+    c += x;
+    if (c <= static_cast<long double>(u) - 1e-12L) ++lo;
+    if (c <= static_cast<long double>(u) + 1e-12L) ++hi;
+  }
+  long n = static_cast<long>(w.size());
+  if (lo <= n - 1 && hi > n - 1) hi = n - 1;
+}
+
+struct HmmObj
+{
+  std::string kind;
+  size_t ns;
+  std::shared_ptr<bpp::AbstractHmmTransitionMatrix> obj, twin;
+  bpp::Parametrizable* par(bool t) { return dynamic_cast<bpp::Parametrizable*>(t ? twin.get() : obj.get()); }
+};
+
+static long hmmPaths(Rng& rng, long n, const std::vector<uint64_t>& seeds)
+{
+  long sc = 0;
+  for (long it = 0; it < n; ++it)
+  {
+    reset();
+    ++sc;
+    HmmObj h;
+    h.kind = rng.coin() ? "full" : "auto";
+    h.ns = 1 + rng.below(4);
+    auto al = std::make_shared<HAlpha>(h.ns);
+    if (h.kind == "full")
+    {
+      h.obj.reset(new bpp::FullHmmTransitionMatrix(al, ""));
+      h.twin.reset(new bpp::FullHmmTransitionMatrix(al, ""));
+    }
+    else
+    {
+      h.obj.reset(new bpp::AutoCorrelationTransitionMatrix(al, ""));
+      h.twin.reset(new bpp::AutoCorrelationTransitionMatrix(al, ""));
+    }
+    tracer().emit(Obj().kv("e", "New").kv("o", 0).kv("k", h.kind).kv("ns", h.ns));
+    uint64_t pool[3] = {seeds[rng.below(seeds.size())], seeds[rng.below(seeds.size())], seeds[rng.below(seeds.size())]};
+    long ops = 4 + static_cast<long>(rng.below(8));
+    for (long o = 0; o < ops; ++o)
+    {
+      size_t what = rng.below(10);
+      if (o == 0 && rng.coin()) what = 9; // a sample as the very first call
+      if (what < 3)
+      { // mutation
+        std::string r, r2, whatS;
+        if (h.kind == "full" && (what < 2 || h.ns == 1))
+        {
+          whatS = "setP";
+          bpp::RowMatrix<double> m(h.ns, h.ns);
+          for (size_t i = 0; i < h.ns; ++i)
+          {
+            // eighths, zero entries with probability 1/3 (never the whole row)
+            std::vector<int> e(h.ns, 0);
+            int left = 8;
+            for (size_t j = 0; j + 1 < h.ns; ++j)
+            {
+              int x = rng.chance(1, 3) ? 0 : static_cast<int>(rng.below(static_cast<size_t>(left) + 1));
+              e[j] = x;
+              left -= x;
+            }
+            e[h.ns - 1] = left;
+            for (size_t j = 0; j < h.ns; ++j) m(i, j) = e[j] / 8.;
+          }
+          auto* f = dynamic_cast<bpp::FullHmmTransitionMatrix*>(h.obj.get());
+          auto* f2 = dynamic_cast<bpp::FullHmmTransitionMatrix*>(h.twin.get());
+          r = outcome<bpp::Exception>([&]() { f->setTransitionProbabilities(m); });
+          r2 = outcome<bpp::Exception>([&]() { f2->setTransitionProbabilities(m); });
+        }
+        else
+        {
+          whatS = "param";
+          std::vector<std::string> names = h.par(false)->getParameters().getParameterNames();
+          if (names.empty()) continue;
+          std::string nm = names[rng.below(names.size())];
+          double v = (1 + static_cast<double>(rng.below(15))) / 16.;
+          r = outcome<bpp::Exception>([&]() { h.par(false)->setParameterValue(nm, v); });
+          r2 = outcome<bpp::Exception>([&]() { h.par(true)->setParameterValue(nm, v); });
+        }
+        tracer().emit(Obj().kv("e", "Mut").kv("o", 0).kv("what", whatS).kv("r", r).kv("twin", r2));
+      }
+      else if (what < 5)
+      {
+        bool eq = what == 3, same = true;
+        std::string r = outcome<bpp::Exception>([&]() {
+          if (eq) same = h.obj->getEquilibriumFrequencies() == h.twin->getEquilibriumFrequencies();
+          else
+          {
+            const bpp::Matrix<double>& a = h.obj->getPij();
+            const bpp::Matrix<double>& b = h.twin->getPij();
+            for (size_t i = 0; i < h.ns; ++i)
+              for (size_t j = 0; j < h.ns; ++j) same = same && a(i, j) == b(i, j);
+          }
+        });
+        tracer().emit(Obj().kv("e", "Get").kv("o", 0).kv("which", eq ? "eq" : "pij").kv("same", r == "ok" && same));
+      }
+      else
+      {
+        static const size_t lens[] = {1, 1, 1, 2, 3, 5};
+        size_t len = lens[rng.below(6)];
+        uint64_t sd = pool[rng.below(3)];
+        std::vector<double> us;
+        quietSeed(sd);
+        for (size_t i = 0; i < len; ++i) us.push_back(bpp::RandomTools::giveRandomNumberBetweenZeroAndEntry(1.0));
+        std::vector<size_t> path;
+        quietSeed(sd);
+        std::string r = outcome<bpp::Exception>([&]() { path = h.obj->sample(len); });
+        // the current weights, from the twin
+        std::vector<double> eq = h.twin->getEquilibriumFrequencies();
+        const bpp::Matrix<double>& P = h.twin->getPij();
+        Arr lo, hi, wpos, out;
+        for (size_t t = 0; t < path.size() && t < len; ++t)
+        {
+          std::vector<double> w;
+          if (t == 0) w = eq;
+          else if (path[t - 1] < h.ns) w = P.row(path[t - 1]);
+          long a = -1, b = -1;
+          if (!w.empty()) rankOf(us[t], w, a, b);
+          lo.add(a);
+          hi.add(b);
+          wpos.add(path[t] < w.size() && w[path[t]] > 0.);
+          out.add(enc(path[t]));
+        }
+        Obj e;
+        e.kv("e", "Sample").kv("o", 0).kv("n", len).kv("seed", static_cast<long long>(sd)).kv("out", out).kv("lo", lo).kv("hi", hi).kv("wpos", wpos);
+        if (r != "ok") e.kv("raised", r);
+        tracer().emit(e);
+      }
+    }
+  }
+  return sc;
+}
+
 int main(int argc, char** argv)
 {
   std::string out = argStr(argc, argv, "--out", "");
@@ -834,6 +999,7 @@ int main(int argc, char** argv)
   else if (mode == "sampling-exh") sc = samplingExh(rng, seeds);
   else if (mode == "sampling-rand") sc = samplingRand(rng, n, seeds);
   else if (mode == "laws") sc = laws(rng, seeds);
+  else if (mode == "hmm") sc = hmmPaths(rng, n, seeds);
   else
   {
     fprintf(stderr, "drv_random: unknown mode\n");
